@@ -575,8 +575,13 @@ class AndConstraint(AbstractConstraint):
         final = []
         for constraint in processed.values():
             if isinstance(constraint, OrConstraint):
-                # A AND (A OR B) reduces to a
-                if any(id(subcons) in processed for subcons in constraint.constraints):
+                # A AND (A OR B) reduces to a. The null constraint stands for
+                # "nothing is known", not for a particular condition, so it
+                # must not absorb anything.
+                if any(
+                    id(subcons) in processed and subcons is not NULL_CONSTRAINT
+                    for subcons in constraint.constraints
+                ):
                     continue
             final.append(constraint)
 
@@ -652,8 +657,11 @@ class OrConstraint(AbstractConstraint):
         final = []
         for constraint in processed.values():
             if isinstance(constraint, AndConstraint):
-                # A OR (A AND B) reduces to a
-                if any(id(subcons) in processed for subcons in constraint.constraints):
+                # A OR (A AND B) reduces to a (but see AndConstraint.make)
+                if any(
+                    id(subcons) in processed and subcons is not NULL_CONSTRAINT
+                    for subcons in constraint.constraints
+                ):
                     continue
             elif isinstance(constraint, Constraint):
                 inverted = id(constraint.invert())
